@@ -283,6 +283,79 @@ def main(tier, replay=None):
             if outs[0][1] != PROBES[c["probe"]][2]:
                 chk.violation({"property": PID, "shape": "no-gitconfig", "case": c,
                                "why": f"--no-gitconfig must ignore every gitconfig source, but {c['probe']} = {outs[0][1]!r}"})
+    # ---- the top rule for every listed option: a value given on the command line, or in the main [delta] section, is
+    #      the effective value whatever features are enabled by whatever route (flags, --features, DELTA_FEATURES,
+    #      gitconfig feature lists): --show-config must report it exactly as it does with no feature enabled
+    if not replay or json.load(open(replay)).get("shape") == "top-source":
+        WIDE = {"minus-style": ["normal 88", "syntax 17", "bold red"], "minus-emph-style": ["normal 88", "normal 89 bold", "syntax 17"],
+                "minus-non-emph-style": ["normal 88", "ul 12"], "plus-style": ["normal 28", "syntax 17", "bold green"],
+                "plus-emph-style": ["normal 28", "syntax 22 ul"], "plus-non-emph-style": ["normal 28", "italic 12"],
+                "zero-style": ["normal 17", "dim syntax"], "commit-style": ["bold yellow", "raw"], "file-style": ["blue", "omit"],
+                "hunk-header-style": ["file line-number syntax", "raw"], "line-numbers-minus-style": ["88", "bold red"],
+                "line-numbers-plus-style": ["28"], "line-numbers-zero-style": ["240"], "line-numbers-left-format": ["{nm:^4}|"],
+                "line-numbers-right-format": ["{np:>5}!"], "commit-decoration-style": ["bold box", "ul"], "file-decoration-style": ["blue ol", "none"],
+                "hunk-header-decoration-style": ["green box", "ul ol"], "whitespace-error-style": ["reverse magenta"],
+                "max-line-distance": ["0.3"], "wrap-max-lines": ["5"], "line-buffer-size": ["7"], "syntax-theme": ["GitHub"],
+                "inline-hint-style": ["bold 12"], "grep-match-word-style": ["bold 12"], "blame-palette": ["#111111 #222222"]}
+        FLAGS = ["side-by-side", "line-numbers", "navigate", "diff-so-fancy", "diff-highlight", "hyperlinks", "raw", "color-only", "dark", "light"]
+        FEATS = ["side-by-side", "line-numbers", "navigate", "diff-so-fancy", "diff-highlight", "hyperlinks", "raw", "color-only"]
+        tcases = []
+        nt = 120 if tier == "quick" else 2500
+        for i in range(nt):
+            r = vlib.case_rng(chk.seed, PID, ("top", i))
+            o = r.choice(sorted(WIDE))
+            route = r.choice(["flag", "flag", "features", "env", "env+", "gitconfig"])
+            fs = r.sample(FLAGS if route == "flag" else FEATS, r.randint(1, 2))
+            if "dark" in fs and "light" in fs:
+                fs = ["dark"]   # delta refuses the two together
+            tcases.append({"option": o, "value": r.choice(WIDE[o]), "placement": r.choice(["cli", "cli", "main"]), "route": route, "features": fs})
+        # side-by-side rewrites the defaults of the removed-line styles: each of the two given alone
+        for o in ("minus-style", "minus-emph-style"):
+            for route in ("flag", "features", "env", "env+", "gitconfig"):
+                tcases.append({"option": o, "value": "normal 88", "placement": "cli", "route": route, "features": ["side-by-side"]})
+        if replay:
+            tcases = [json.load(open(replay))["case"]]
+
+        def run_top(ic):
+            i, c = ic
+            d = os.path.join(vlib.CACHE, "tmp", f"c13t-{os.getpid()}-{i}")
+            os.makedirs(d, exist_ok=True)
+            outs = []
+            for with_feats in (False, True):
+                path = os.path.join(d, "gitconfig%d" % with_feats)
+                env, args = {}, ["--config", path, "--show-config"]
+                with open(path, "w") as f:
+                    f.write("[delta]\n")
+                    if c["placement"] == "main":
+                        f.write(f"    {c['option']} = \"{c['value']}\"\n")   # quoted: `#` starts a comment in a gitconfig file
+                    if with_feats and c["route"] == "gitconfig":
+                        f.write(f"    features = {' '.join(c['features'])}\n")
+                if c["placement"] == "cli":
+                    args += ["--" + c["option"], c["value"]]
+                if with_feats:
+                    if c["route"] == "flag":
+                        args += ["--" + x for x in c["features"]]
+                    elif c["route"] == "features":
+                        args += ["--features", " ".join(c["features"])]
+                    elif c["route"] in ("env", "env+"):
+                        env["DELTA_FEATURES"] = ("+" if c["route"] == "env+" else "") + " ".join(c["features"])
+                rc, out, err = vlib.run_delta(args, env_extra=env)
+                m = re.search(r"^\s*" + re.escape(c["option"]) + r"\s*= ?(.*)$", term.strip(out), re.M)
+                outs.append((rc, m.group(1) if m else None))
+            return outs
+        with ThreadPoolExecutor(max_workers=vlib.NCPU) as ex:
+            tres = list(ex.map(run_top, enumerate(tcases)))
+        for c, ((rc0, v0), (rc1, v1)) in zip(tcases, tres):
+            chk.case(("top", json.dumps(c, sort_keys=True)), True, c)
+            chk.count("top-source:" + c["route"])
+            if rc0 != 0 or rc1 != 0:
+                chk.violation({"property": PID, "shape": "top-source", "case": c, "why": f"--show-config failed (exit {rc0}, {rc1})"})
+            elif v0 is None:
+                chk.count("top-source:not-reported-by-show-config")
+            elif v0 != v1:
+                chk.violation({"property": PID, "shape": "top-source", "case": c,
+                               "why": f"--{c['option']} {c['value']!r} given {'on the command line' if c['placement'] == 'cli' else 'in the [delta] section'} "
+                                      f"is reported as {v0!r}, but as {v1!r} once {c['features']} is enabled via {c['route']}"})
     chk.oblige("correspondence:show-config", mism == 0, f"{mism} of {len(cases)} placements resolve differently in model and implementation")
     chk.extra["traces_validated_against_impl"] = len(cases) - mism
     chk.extra["translator"] = tinfo.get("features", {})
